@@ -689,7 +689,9 @@ Report execute(const Plan &plan_in, const Options &opt) {
 	sc.replay = opt.replay || plan.replay; sc.script = plan.sched; sc.seed = rt::mix64(plan.seed, 0x5c4ed);
 	sc.p_num = plan.p_num; sc.p_den = plan.p_den; sc.park_site = plan.park_site; sc.park_num = plan.park_num; sc.park_den = plan.park_den;
 	rt::sched_configure(sc);
-	seam::set_warmup(opt.run_index == ~(uint64_t)0);
+	// the warm-up history and a cold history are where the library's one-time, process-wide allocations happen: they are served by
+	// the real allocator, because the simulated heap of a run is wiped when the run ends
+	seam::set_warmup(opt.run_index == ~(uint64_t)0 || plan.cold);
 	seam::run_begin(plan.heap_seed);
 	rs.sig0 = seam::signal_dispositions();
 
